@@ -1368,6 +1368,29 @@ where
         want_el(&tw, &tw.pow(&z, &pow2(s as usize - 1)), &tw.neg(&tw.one()))
             .map_err(|e| format!("QUADRATIC_NONRESIDUE_TO_T {} does not have order exactly 2^{s}: z^(2^(s-1)) {e}", tw.show(&z)))
     });
+    // every shipped Fp3 configuration documents this constant as NONRESIDUE^T ("NONRESIDUE^T % q", "(11^T, 0, 0)"
+    // with NONRESIDUE = 11, ...): the cubic non-residue of the tower doubles as the quadratic non-residue
+    // (only demanded where the configuration's source says so in the comment above the constant)
+    let documented = std::fs::read_to_string(format!("/repo/{file}"))
+        .or_else(|_| std::fs::read_to_string(file))
+        .map(|txt| {
+            let lines: Vec<&str> = txt.lines().collect();
+            lines.iter().position(|l| l.contains("const QUADRATIC_NONRESIDUE_TO_T")).map(|i| lines[i.saturating_sub(4)..i].iter().any(|l| l.contains("//") && l.contains("^T"))).unwrap_or(false)
+        })
+        .unwrap_or(false);
+    reg.rel(cfg, "fp3_quadratic_nonresidue_to_t_is_nonresidue_to_t", 0, move || {
+        if !documented {
+            return Ok(());
+        }
+        let tw = <ark_ff::Fp3<P> as Rd>::tw();
+        let qm1 = tw.order() - 1u32;
+        let t = &qm1 >> qm1.trailing_zeros().unwrap();
+        let beta = P::NONRESIDUE.rd();
+        let mut e = tw.one();
+        e[0] = beta[0].clone();
+        want_el(&tw, &P::QUADRATIC_NONRESIDUE_TO_T.rd(), &tw.pow(&e, &t))
+            .map_err(|e| format!("QUADRATIC_NONRESIDUE_TO_T is not NONRESIDUE^T (the documented value): {e}"))
+    });
 }
 
 fn fp4_cfg<P: Fp4Config>(reg: &mut Reg, cfg: &str, file: &str)
